@@ -20,12 +20,29 @@ def plan(prop):
     bits = 16 if Q else 31
     kmax = 2 if Q else 3
     shapes = [(k, closed) for closed in (True, False) for k in range(0, kmax + 1)]
+    rates = co.RATE_VECTORS_QUICK if Q else co.RATE_VECTORS_THOROUGH
+    core = 'vrp-core'
     if prop in ('C06', 'C01'):
         for k, closed in shapes:
-            obs.append(('vrp-core', lambda ctx, k=k, c=closed: co.ob_time_window_gate(ctx, k, c, bits)))
+            obs.append((core, lambda ctx, k=k, c=closed: co.ob_time_window_gate(ctx, k, c, bits)))
+        for k, closed in shapes:
+            obs.append((core, lambda ctx, k=k, c=closed: co.ob_capacity_gate(ctx, k, c)))
+    if prop == 'C01':
+        for k, closed in shapes:
+            obs.append((core, lambda ctx, k=k, c=closed: co.ob_limits_gate(ctx, k, c, bits)))
     if prop in ('C06', 'C03', 'C05'):
         for k, closed in shapes:
-            obs.append(('vrp-core', lambda ctx, k=k, c=closed: co.ob_schedule_state_statistics(ctx, k, c, bits)))
+            obs.append((core, lambda ctx, k=k, c=closed: co.ob_schedule_state_statistics(ctx, k, c, bits)))
+    if prop == 'C05':
+        for k, closed in shapes[:3]:
+            obs.append((core, lambda ctx, k=k, c=closed: co.ob_capacity_gate(ctx, k, c)))
+    if prop == 'C03':
+        obs.append((core, lambda ctx: co.ob_total_cost_fold(ctx, 16, rates)))
+    if prop == 'C20':
+        for k, closed in shapes:
+            obs.append((core, lambda ctx, k=k, c=closed: co.ob_distance_estimate(ctx, k, c, bits)))
+        for k, closed in [(k, c) for k, c in shapes if k <= 2]:
+            obs.append((core, lambda ctx, k=k, c=closed: co.ob_cost_estimate(ctx, k, c, 16, rates)))
     return obs
 
 
